@@ -30,6 +30,10 @@ import (
 	"pdverif/internal/kvx13"
 	"pdverif/internal/res"
 	"pdverif/internal/rng"
+	"pdverif/internal/srv14"
+
+	"github.com/tikv/pd/server/cluster"
+	"github.com/tikv/pd/server/config"
 )
 
 // ---------- raw operations (json, replayable) ----------
@@ -85,6 +89,9 @@ type opJ struct {
 	// kind "initfail": a fresh manager's Initialize hits a storage read error (InGroups: in loadGroups, after
 	// loadRules and its repairs); kind "reinit": Initialize is called again on that same manager
 	InGroups bool `json:"in_groups,omitempty"`
+	// kind "restart" in a hand-over case: "rc" = this member is (re-)elected: the real RaftCluster of a real server is
+	// stopped and started again on one object; "other" = another member leads meanwhile: its own RuleManager on the same storage
+	Via string `json:"via,omitempty"`
 }
 
 // ---------- building PD objects (always fresh: the manager keeps and mutates what it is given) ----------
@@ -302,6 +309,62 @@ type world struct {
 	live     *placement.RuleManager
 	pending  *placement.RuleManager // a manager whose Initialize failed
 	prevLive string                 // Coq text of the previous live dump ("" = none)
+	srv      *srv14.Srv             // hand-over cases: the real server whose RaftCluster is stopped and started
+	rcUp     bool
+}
+
+// ---------- the layer around the rule manager: a real server's RaftCluster over several leadership terms ----------
+var theServer *srv14.Srv
+var theServerKV *kvx13.Base
+var theServerRC *cluster.RaftCluster // GetRaftCluster() is nil while the cluster is stopped: keep the object
+
+func newWorldServer() *world {
+	if theServer == nil {
+		x, err := srv14.Start(func(c *config.Config) { c.LeaderLease = 60 })
+		if err != nil {
+			panic(err)
+		}
+		if err := x.Bootstrap(&metapb.Store{Id: 1, Address: "boot", Version: "4.0.0"}); err != nil {
+			panic(err)
+		}
+		theServer = x
+		theServerRC = x.S.GetRaftCluster()
+		st := x.S.GetStorage()
+		theServerKV = kvx13.NewOn(st.Base)
+		st.Base = theServerKV
+	}
+	w := &world{kv: theServerKV, st: theServer.S.GetStorage(), srv: theServer, rcUp: true}
+	// a fresh start for the case: this member steps down, every rule and group record is removed
+	w.stopRC()
+	ks, _ := w.kv.Dump()
+	for _, k := range ks {
+		if strings.HasPrefix(k, "rules/") || strings.HasPrefix(k, "rule_group/") {
+			_ = w.kv.Inner.Remove(k)
+		}
+	}
+	return w
+}
+
+func (w *world) stopRC() {
+	if w.rcUp {
+		theServerRC.Stop()
+		w.rcUp = false
+	}
+}
+
+// restartVia performs a "restart" of a hand-over case and returns the manager that serves afterwards.
+func (w *world) restartVia(o opJ) (*placement.RuleManager, error) {
+	w.stopRC()
+	if o.Via == "rc" {
+		rc := theServerRC
+		if err := rc.Start(w.srv.S); err != nil {
+			return nil, err
+		}
+		w.rcUp = true
+		return rc.GetRuleManager(), nil
+	}
+	m := placement.NewRuleManager(w.st, nil) // the other member's manager, on the same storage
+	return m, m.Initialize(o.MaxReplicas, nil)
 }
 
 func newWorld() *world {
@@ -362,8 +425,13 @@ func (w *world) exec(o opJ) stepOut {
 	resS := ""
 	switch o.Kind {
 	case "restart":
-		m := placement.NewRuleManager(w.st, nil)
-		err = m.Initialize(o.MaxReplicas, nil)
+		var m *placement.RuleManager
+		if w.srv != nil {
+			m, err = w.restartVia(o)
+		} else {
+			m = placement.NewRuleManager(w.st, nil)
+			err = m.Initialize(o.MaxReplicas, nil)
+		}
 		w.kv.Take()
 		if err != nil {
 			w.live = nil
@@ -1124,6 +1192,38 @@ func sortKeys(l [][]byte) {
 	}
 }
 
+// ---------- leadership hand-over: this member leads, another member leads and accepts updates, this member leads again ----------
+func genHandover(r *rng.R) caseJ {
+	g := &gen{r: r, known: map[[2]string]ruleJ{{"pd", "default"}: {G: "pd", I: "default", Role: "voter", Count: 3}}}
+	wb := newWorld()
+	var ops []opJ
+	upd := func(n int) {
+		for k := 0; k < n; k++ {
+			o := g.next(false)
+			for !o.isUpdate() {
+				o = g.next(false)
+			}
+			o.FaultN = 0
+			ops = append(ops, o)
+			g.learn(o, wb.exec(o).res == "ROk")
+		}
+	}
+	term := func(via string) {
+		o := opJ{Kind: "restart", MaxReplicas: 3, Via: via}
+		ops = append(ops, o)
+		wb.exec(opJ{Kind: "restart", MaxReplicas: 3})
+	}
+	term("rc")
+	upd(1 + r.Intn(3))
+	for k := 0; k < 1+r.Intn(2); k++ {
+		term("other")
+		upd(1 + r.Intn(3))
+		term("rc")
+		upd(r.Intn(3))
+	}
+	return caseJ{Stream: "handover", Server: true, Ops: ops}
+}
+
 // ---------- overlapping updates ----------
 func genOverlap(r *rng.R) caseJ {
 	g := &gen{r: r, known: map[[2]string]ruleJ{{"pd", "default"}: {G: "pd", I: "default", Role: "voter", Count: 3}}}
@@ -1207,6 +1307,7 @@ func genBig(r *rng.R, etcd bool) caseJ {
 type caseJ struct {
 	Stream string `json:"stream"`
 	Etcd   bool   `json:"etcd,omitempty"` // run on PD's etcd kv.Base (embedded etcd) instead of the memory kv
+	Server bool   `json:"server,omitempty"` // run on a real pd server: restarts are RaftCluster.Stop/Start or another member's manager
 	Ops    []opJ  `json:"ops"`
 }
 
@@ -1229,6 +1330,10 @@ func runCase(R *res.Result, c caseJ, r *rng.R) (caseJ, caseOut) {
 	w := newWorld()
 	if c.Etcd {
 		w = newWorldEtcd()
+	}
+	if c.Server {
+		w = newWorldServer()
+		defer w.stopRC()
 	}
 	var ops, obs []string
 	accepted, rejected, faulted, multi := 0, 0, 0, false
@@ -1325,6 +1430,7 @@ func main() {
 	n := flag.Int("n", 300, "number of generated cases")
 	out := flag.String("out", ".", "output directory")
 	tier := flag.String("tier", "quick", "")
+	handovers := flag.Int("handovers", 6, "number of leadership hand-over cases on a real pd server (RaftCluster Stop/Start, another member's updates in between)")
 	large := flag.Int("large", 3, "number of large-index runs (1500..3500 rules, brute-force oracle on the Go side)")
 	overlaps := flag.Int("overlaps", 15, "number of cases with overlapping updates (one parked inside its storage write)")
 	sweeps := flag.Int("sweeps", 12, "number of systematic fault sweeps (a failure at each write of a multi-write update, before/after, + retry)")
@@ -1336,7 +1442,7 @@ func main() {
 	log.ReplaceGlobals(zap.NewNop(), nil)
 
 	R := res.New("C13", *seed, *tier)
-	R.Rule = "streams: bigload (restart after > 100 / > 200 rules and > 100 groups whose ids form strict-prefix chains, on the memory kv and on PD's etcd kv.Base), overlap (update A parked inside its first storage write while update B is issued: B must wait, the outcome is A then B), faultsweep (a storage failure at EACH write of a multi-write update, before/after, then the retry), and random histories of 6..20 operations (SetRule 30%, DeleteRule 12%, SetRules 6%, Batch 10% incl. delete-by-prefix, SetRuleGroup 13%, " +
+	R.Rule = "streams: bigload (restart after > 100 / > 200 rules and > 100 groups whose ids form strict-prefix chains, on the memory kv and on PD's etcd kv.Base), handover (a real pd server: this member's RaftCluster is stopped, another member's RuleManager accepts updates on the same storage, the RaftCluster is started again on the same object), overlap (update A parked inside its first storage write while update B is issued: B must wait, the outcome is A then B), faultsweep (a storage failure at EACH write of a multi-write update, before/after, then the retry), and random histories of 6..20 operations (SetRule 30%, DeleteRule 12%, SetRules 6%, Batch 10% incl. delete-by-prefix, SetRuleGroup 13%, " +
 		"DeleteRuleGroup 5%, SetGroupBundle 8%, SetAllGroupBundles 4%, DeleteGroupBundle 4%, restart 3%, foreign storage writes 5% in the " +
 		"malformed stream = 15% of the cases) over 4 groups x 5 rule ids, key ranges from the pool {'',10,20,2010,30,40,50} (whole space 50%, " +
 		"unbounded 25%, bounded 25%), 8% invalid rule contents, a storage fault at write 1..3 (before/after) on 14% of the updates, retried " +
@@ -1411,6 +1517,12 @@ func main() {
 		}
 		for k := 0; k < *overlaps; k++ {
 			emit(genOverlap(master.Fork(uint64(4000000+k))), nil)
+		}
+		for k := 0; k < *handovers; k++ {
+			emit(genHandover(master.Fork(uint64(6000000+k))), nil)
+		}
+		if theServer != nil {
+			theServer.Close()
 		}
 		for k := 0; k < *n; k++ {
 			r := master.Fork(uint64(k))
